@@ -92,7 +92,7 @@ def augGet (v : V) (idx : Sc) : Option V :=
     | some w => some w
     | none => if k == "size".toList then some (.sc (.int kvs.length)) else none
   | .sc s =>
-    if idx.render == "size".toList then some (.sc (.int (utf8Len s.render))) else none
+    if idx.render == "size".toList then some (.sc (.int s.render.length)) else none
   | _ => none
 
 def tryFind : V → List Sc → Option V
